@@ -95,6 +95,37 @@ def fault_enumeration(ck, quick, rng, wd):
             ck.notes["fault_outcomes_%s_%s" % (name, prec)] = outcomes
 
 
+def apalache_inductive(ck):
+    """Unbounded safety of the workspace stack object with Apalache: StackInv holds initially and is preserved by every action for ALL
+    integer sizes and request lengths (two SMT queries, a few seconds); TLC and the recorded executions only see particular values."""
+    import shutil, subprocess
+    exe = shutil.which("apalache-mc")
+    if not exe:
+        ck.notes["apalache"] = "apalache-mc not on PATH: inductive-invariant check skipped"
+        return
+    wd = os.path.join(ck.dir, "apalache")
+    os.makedirs(wd, exist_ok=True)
+    shutil.copy(os.path.join(os.path.dirname(os.path.abspath(__file__)), "..", "spec", "SluStackInd.tla"), wd)
+    res = []
+    for name, args in (("initiation", ["--init=SInit", "--inv=StackInv", "--length=0"]),
+                       ("consecution", ["--init=IndInit", "--next=Next", "--inv=StackInv", "--length=1"])):
+        try:
+            p = subprocess.run([exe, "check", "--out-dir=" + os.path.join(wd, "out"), "--run-dir=" + os.path.join(wd, "run_" + name)] + args + ["SluStackInd.tla"],
+                               cwd=wd, capture_output=True, text=True, timeout=600)
+            out = p.stdout + p.stderr
+        except subprocess.TimeoutExpired:
+            out = "TIMEOUT"
+        ck.case("apalache:" + name)
+        if "The outcome is: NoError" in out:
+            res.append(name + ": NoError")
+            ck.model(1, 1)
+        elif "The outcome is: Error" in out:
+            ck.violation("apalache:" + name, "Apalache: StackInv is not inductive (%s): see %s" % (name, wd))
+        else:
+            res.append(name + ": not decided")       # tool failure or time limit: not a verdict
+    ck.notes["apalache_inductive_invariant_StackInv"] = res
+
+
 def workspace_sizes(ck, quick, wd):
     items = []
     for P in (1, 2, 4):
@@ -182,6 +213,7 @@ def main(tier):
     apicheck.run_histories(ck, ["mat", "vals", "gssvx", "destroy", "user", "query", "trans"], 3, 40 if quick else 400, rng, precs=("d", "s", "z", "c"),
                            threads=(1, 2, 4), nmax=24, hist_filter=lambda h: any(c.get("lw") in ("user", "query") for c in h), validate_pipe=False)
     user_vs_system(ck, rng, wd, 8 if quick else 60)
+    apalache_inductive(ck)
     workspace_sizes(ck, quick, wd)
     fault_enumeration(ck, quick, rng, wd)
     rc = ck.finish()
